@@ -163,7 +163,7 @@ class CFG:
                     changed = True
         return dom
 
-    def paths(self, start=None, stop=None, max_paths=200000, follow_exc=True, edge_budget=1):
+    def paths(self, start=None, stop=None, max_paths=200000, follow_exc=True, edge_budget=1, merge_exc=True):
         """Enumerate paths from `start` (default entry) until a node for which stop(node)
         is true, or exit/xexit.  Each edge is taken at most `edge_budget` times per path
         (loops are cut at the back edge).  Yields lists of (node, label_taken)."""
@@ -179,9 +179,14 @@ class CFG:
                 yield path + [(n, None)]
                 continue
             nexts = []
+            exc_targets = set()
             for lab, m in n.succ:
                 if not follow_exc and isinstance(lab, tuple):
                     continue
+                if merge_exc and isinstance(lab, tuple):
+                    if m.id in exc_targets:
+                        continue
+                    exc_targets.add(m.id)
                 k = (n.id, lab, m.id)
                 if used.get(k, 0) >= edge_budget:
                     continue
@@ -357,3 +362,91 @@ def fmt_path(path, limit=40):
     if len(out) > limit:
         out = out[:limit // 2] + ['...'] + out[-limit // 2:]
     return out
+
+
+def _names_in(expr):
+    out = set()
+    for x in ast.walk(expr):
+        if isinstance(x, ast.Name):
+            out.add(x.id)
+        elif isinstance(x, ast.Attribute):
+            t = src(x)
+            out.add(t)
+    return out
+
+
+def path_facts(path, states=None, mutates_state=None):
+    """Syntactic feasibility of a CFG path.  Returns None when the path takes both
+    polarities of two textually identical condition atoms (with no intervening assignment
+    to anything they mention) or, with `states` (typestate.States), when the constraints on
+    some `<x>.state` become unsatisfiable.  Otherwise returns {'conds': {text: 'T'|'F'},
+    'state': {subject: frozenset}} as they stand at the end of the path."""
+    seen = {}
+    mention = {}
+    st = {}
+    for node, lab in path:
+        if node.kind == 'cond' and lab in ('T', 'F'):
+            text = src(node.ast)
+            if text in seen and seen[text] != lab:
+                return None
+            seen[text] = lab
+            mention[text] = _names_in(node.ast)
+            if states is not None:
+                ev = states.eval_cond(node.ast)
+                if ev is not None and ev[1] is not None:
+                    allowed = ev[1] if lab == 'T' else states.all - ev[1]
+                    cur = st.get(ev[0], states.all) & allowed
+                    if not cur:
+                        return None
+                    st[ev[0]] = cur
+        killed = set()
+        if node.kind == 'stmt' and isinstance(node.ast, (ast.Assign, ast.AugAssign, ast.AnnAssign)):
+            tg = node.ast.targets if isinstance(node.ast, ast.Assign) else [node.ast.target]
+            for t in tg:
+                for x in ast.walk(t):
+                    if isinstance(x, ast.Name) and isinstance(x.ctx, ast.Store):
+                        killed.add(x.id)
+                    elif isinstance(x, ast.Attribute) and isinstance(x.ctx, ast.Store):
+                        killed.add(src(x))
+            if states is not None and isinstance(node.ast, ast.Assign):
+                for t in node.ast.targets:
+                    if isinstance(t, ast.Attribute) and t.attr == 'state':
+                        c = states.const(node.ast.value)
+                        st[src(t)] = frozenset([c]) if c else states.all
+                        killed.discard(src(t))
+                        for text in [k for k, m in mention.items() if src(t) in m]:
+                            seen.pop(text, None)
+                            mention.pop(text, None)
+        elif node.kind == 'iter' and lab == 'body':
+            for x in ast.walk(node.ast.target):
+                if isinstance(x, ast.Name):
+                    killed.add(x.id)
+        elif node.kind == 'handler' and node.ast.name:
+            killed.add(node.ast.name)
+        if node.kind in ('stmt', 'cond', 'iter') and states is not None:
+            # a call on / with an object may change that object's state
+            for e in node.exprs():
+                if e is None:
+                    continue
+                for x in ast.walk(e):
+                    if isinstance(x, ast.Call):
+                        if mutates_state is not None and not mutates_state(x):
+                            continue
+                        objs = []
+                        if isinstance(x.func, ast.Attribute):
+                            objs.append(src(x.func.value))
+                        objs += [src(a) for a in x.args]
+                        for subj in list(st):
+                            if subj.rsplit('.', 1)[0] in objs:
+                                st.pop(subj, None)
+                                for text in [k for k, m in mention.items() if subj in m]:
+                                    seen.pop(text, None)
+                                    mention.pop(text, None)
+        if killed:
+            for text in [k for k, m in mention.items() if m & killed or any(
+                    (n + '.') in t or t == n for n in killed for t in m)]:
+                seen.pop(text, None)
+                mention.pop(text, None)
+            for subj in [s for s in st if s.split('.')[0] in killed]:
+                st.pop(subj, None)
+    return {'conds': seen, 'state': st}
